@@ -176,9 +176,13 @@ func finishCheck(id string, pc *propCfg, tier string, seed uint64, a *agg, start
 		"property_id": id, "tier": tier, "seed": int64(seed & 0x7fffffffffffffff), "level": "exploration",
 		"coverage": cov, "assumptions": pc.Assume, "wall_s": wall, "violations": newViolations,
 	}
-	os.MkdirAll(filepath.Join(verifDir, "evidence"), 0755)
+	evDir := filepath.Join(verifDir, "evidence")
+	if os.Getenv("VERIF_MUTANT_OVERLAY") != "" {
+		evDir = filepath.Join(workDir(), "evidence") // sensitivity runs never touch the committed evidence
+	}
+	os.MkdirAll(evDir, 0755)
 	b, _ := json.MarshalIndent(ev, "", " ")
-	if err := os.WriteFile(filepath.Join(verifDir, "evidence", id+".json"), append(b, '\n'), 0644); err != nil {
+	if err := os.WriteFile(filepath.Join(evDir, id+".json"), append(b, '\n'), 0644); err != nil {
 		die2("write evidence: %v", err)
 	}
 	fmt.Printf("%s tier=%s seed=%d runs=%d nontrivial=%d distinct=%d wall=%.1fs (build %.1fs) faults=%v counters=%v\n", id, tier, seed, evals, nontrivial, len(distinct), wall, buildS, faults, counters)
@@ -194,6 +198,7 @@ func finishCheck(id string, pc *propCfg, tier string, seed uint64, a *agg, start
 			fmt.Printf("HARNESS-ERROR %s\n", e)
 		}
 	}
+	os.RemoveAll(scratchRoot())
 	if newViolations > 0 {
 		os.Exit(1)
 	}
